@@ -790,6 +790,7 @@ func (h *H) doCrashRestart(choice int) {
 		h.violate("restart:log-differs-from-synced-prefix", fmt.Sprintf(
 			"log before the stop %v (synced up to offset %d), log after reopening %v", h.shadow, synced, recovered))
 		h.shadow = append([]ent(nil), recovered...)
+		synced = -2 // what came back is kept as it is: its consequences stay visible to the other monitors
 	}
 	h.mu.Unlock()
 	if synced == -2 || synced > last {
